@@ -1,4 +1,5 @@
 //! VerifVM: a real MMTk VM binding instrumented for runtime monitoring.
+pub mod c08;
 pub mod cfg;
 pub mod obj;
 pub mod prog;
